@@ -1,6 +1,7 @@
 import Yaep.Lemmas.Analysis
 import Yaep.Lemmas.FirstFollow
 import Yaep.Lemmas.CheckGrammar
+import Yaep.Lemmas.ReadGrammar
 /-!
 # C10: the grammar analysis of `yaep_read_grammar` / `check_grammar` is correct
 
@@ -257,5 +258,144 @@ example : (2, 2) ∈ gCyc.followTab :=
   ((follow_closed (g := gCyc) (by decide) (r := 1) (α := []) (β := [.n 1]) rfl rfl).1) 2
     (by decide)
 example : gOk.followTab = [(1, 1), (2, 2)] := by decide
+
+/-! ## what `readGrammar` returns
+
+The documented defects are the predicates of `Yaep/Spec/Defects.lean` on the raw
+description (`StructOK`, `DefectOfCode`); the internal grammar is `buildGrammar raw`
+(`readGrammar` without the final `check_grammar`). -/
+
+/-- `S : A 'a' S # 0 2 | 'b' # 0;  A : ;` with abstract node `cons` on the first rule -/
+def rawOk : RawGrammar :=
+  ⟨[("a", 97), ("b", 98)],
+   [⟨"S", ["A", "a", "S"], some "cons", 1, some [0, 2]⟩, ⟨"S", ["b"], none, 0, some [0]⟩,
+    ⟨"A", [], none, 0, none⟩], true⟩
+
+/-- the terminal `a` is used as a left-hand side -/
+def rawTermLhs : RawGrammar := ⟨[("a", 97)], [⟨"a", ["a"], none, 0, none⟩], false⟩
+
+/-- `$eof` used as an ordinary symbol -/
+def rawReserved : RawGrammar := ⟨[("a", 97)], [⟨"S", ["a", "$eof"], none, 0, none⟩], false⟩
+
+/-- position 0 translated twice -/
+def rawDupTransl : RawGrammar :=
+  ⟨[("a", 97)], [⟨"S", ["a", "a"], some "n", 0, some [0, 0]⟩], false⟩
+
+/-- `S : S` -/
+def rawCyclic : RawGrammar := ⟨[("a", 97)], [⟨"S", ["S"], none, 0, none⟩, ⟨"S", ["a"], none, 0, none⟩], false⟩
+
+/-- `readGrammar` is the builder followed by `check_grammar` -/
+theorem readGrammar_ok_build {raw : RawGrammar} {g : Grammar} :
+    readGrammar raw = .ok g ↔ (buildGrammar raw = .ok g ∧ checkGrammar g raw.strict = 0) := by
+  rw [readGrammar_eq]
+  cases hb : buildGrammar raw with
+  | error c => simp
+  | ok g' =>
+    simp only []
+    by_cases hc : checkGrammar g' raw.strict = 0
+    · simp only [hc, ne_eq, not_true_eq_false, if_false, Except.ok.injEq]
+      constructor
+      · rintro rfl; exact ⟨rfl, hc⟩
+      · rintro ⟨h, _⟩; exact h
+    · simp only [ne_eq, hc, not_false_eq_true, if_true, reduceCtorEq, Except.ok.injEq, false_iff,
+        not_and]
+      rintro rfl; exact hc
+
+/-- the grammar `readGrammar` returns has the shape the Earley theorems (C01) assume -/
+theorem readGrammar_wf {raw : RawGrammar} {g : Grammar} (h : readGrammar raw = .ok g) : g.WF :=
+  (buildGrammar_ok (readGrammar_ok_build.mp h).1).2.1
+
+/-- ... and all its symbol numbers are in range (the side condition of the FIRST/FOLLOW
+theorems) -/
+theorem readGrammar_symsInRange {raw : RawGrammar} {g : Grammar} (h : readGrammar raw = .ok g) :
+    g.symsInRange = true :=
+  (buildGrammar_ok (readGrammar_ok_build.mp h).1).2.2
+
+/-- ... and it satisfies what `check_grammar` tests -/
+theorem readGrammar_semOK {raw : RawGrammar} {g : Grammar} (h : readGrammar raw = .ok g) :
+    SemOK g raw.strict :=
+  (checkGrammar_spec g raw.strict).mp (readGrammar_ok_build.mp h).2
+
+example : ∃ g, readGrammar rawOk = .ok g := ⟨_, rfl⟩
+example : ∃ g, readGrammar rawOk = .ok g ∧ g.WF ∧ g.symsInRange = true ∧ SemOK g true :=
+  ⟨_, rfl, readGrammar_wf (raw := rawOk) rfl, readGrammar_symsInRange (raw := rawOk) rfl,
+    readGrammar_semOK (raw := rawOk) rfl⟩
+
+/-- the internal grammar exists exactly for the structurally correct descriptions -/
+theorem buildGrammar_ok_iff_structOK (raw : RawGrammar) :
+    (∃ g, buildGrammar raw = .ok g) ↔ StructOK raw :=
+  buildGrammar_ok_iff raw
+
+/-- `yaep_read_grammar` succeeds exactly on the descriptions without documented defect -/
+theorem readGrammar_ok_iff (raw : RawGrammar) :
+    (∃ g, readGrammar raw = .ok g) ↔ NoDefect raw := by
+  constructor
+  · rintro ⟨g, hg⟩
+    obtain ⟨hb, _⟩ := readGrammar_ok_build.mp hg
+    refine ⟨(buildGrammar_ok hb).1, ?_⟩
+    intro g' hg'
+    rw [hb] at hg'
+    simp only [Except.ok.injEq] at hg'
+    subst hg'
+    exact readGrammar_semOK hg
+  · rintro ⟨hs, hsem⟩
+    obtain ⟨g, hb⟩ := (buildGrammar_ok_iff raw).mpr hs
+    exact ⟨g, readGrammar_ok_build.mpr ⟨hb, (checkGrammar_spec g raw.strict).mpr (hsem g hb)⟩⟩
+
+example : NoDefect rawOk := (readGrammar_ok_iff rawOk).mp ⟨_, rfl⟩
+example : StructOK rawOk := ((readGrammar_ok_iff rawOk).mp ⟨_, rfl⟩).1
+example : ¬ NoDefect rawTermLhs := fun h => by
+  obtain ⟨g, hg⟩ := (readGrammar_ok_iff rawTermLhs).mpr h
+  have h9 : readGrammar rawTermLhs = .error 9 := rfl
+  rw [h9] at hg
+  cases hg
+
+/-- the error code `yaep_read_grammar` returns names a defect that is really present -/
+theorem readGrammar_err_sound {raw : RawGrammar} {c : ErrCode} (h : readGrammar raw = .error c) :
+    DefectOfCode raw c := by
+  rw [readGrammar_eq] at h
+  cases hb : buildGrammar raw with
+  | error c' =>
+    rw [hb] at h
+    simp only [Except.error.injEq] at h
+    subst h
+    exact buildGrammar_err hb
+  | ok g =>
+    rw [hb] at h
+    simp only [] at h
+    split at h
+    · simp only [Except.error.injEq] at h
+      obtain ⟨h15, h14, h16⟩ := checkGrammar_code_sound g raw.strict
+      rename_i hne
+      rcases checkGrammar_codes g raw.strict with h0 | hc | hc | hc
+      · exact absurd h0 hne
+      · rw [hc] at h; subst h
+        exact ⟨(h14 hc).1, g, hb, (h14 hc).2⟩
+      · rw [hc] at h; subst h
+        exact ⟨g, hb, h15 hc⟩
+      · rw [hc] at h; subst h
+        exact ⟨g, hb, h16 hc⟩
+    · cases h
+
+/-- `yaep_read_grammar` returns no other codes than the documented ones -/
+theorem readGrammar_codes {raw : RawGrammar} {c : ErrCode} (h : readGrammar raw = .error c) :
+    4 ≤ c ∧ c ≤ 16 := by
+  have hd := readGrammar_err_sound h
+  match c, hd with
+  | 0, hd | 1, hd | 2, hd | 3, hd => exact hd.elim
+  | 4, _ | 5, _ | 6, _ | 7, _ | 8, _ | 9, _ | 10, _ | 11, _ | 12, _ | 13, _ | 14, _ | 15, _
+  | 16, _ => exact ⟨by decide, by decide⟩
+  | (_ + 17), hd => exact hd.elim
+
+example : readGrammar rawTermLhs = .error 9 := rfl
+example : ∃ rr ∈ rawTermLhs.rules, rr.lhs ∈ rawTermLhs.allTermNames :=
+  readGrammar_err_sound (raw := rawTermLhs) (c := 9) rfl
+example : readGrammar rawReserved = .error 4 := rfl
+example : DefectOfCode rawReserved 4 := readGrammar_err_sound (raw := rawReserved) rfl
+example : readGrammar rawDupTransl = .error 13 := rfl
+example : DefectOfCode rawDupTransl 13 := readGrammar_err_sound (raw := rawDupTransl) rfl
+example : readGrammar rawCyclic = .error 16 := rfl
+example : ∃ g, buildGrammar rawCyclic = .ok g ∧ Cyclic g :=
+  readGrammar_err_sound (raw := rawCyclic) (c := 16) rfl
 
 end Yaep
